@@ -218,6 +218,19 @@ func genSpecials(r *Rng) []special {
 		return sb.String()
 	}
 	out = append(out, special{Name: "oversized-function-callee-package-swap", Family: "oversized", Files: files, P: bigCallee("pa"), Q: bigCallee("pb")})
+	// 4c. beyond the size guard the only edit is the TAIL of a long string literal (go/ssa abbreviates long
+	// constants when it prints an instruction)
+	bigStr := func(tail string) string {
+		var sb strings.Builder
+		sb.WriteString(specialHeader())
+		sb.WriteString("func Special(a int, b int, s string, xs []int) int {\n\tt := b\n")
+		for i := 0; i < 2600; i++ {
+			fmt.Fprintf(&sb, "\tif a == %d {\n\t\tt += 1\n\t}\n", i%40)
+		}
+		fmt.Fprintf(&sb, "\tmsg := %q\n\treturn t + int(msg[len(msg)-1])\n}\n", strings.Repeat("x", 120)+tail)
+		return sb.String()
+	}
+	out = append(out, special{Name: "oversized-function-long-string-tail", Family: "oversized", P: bigStr("A"), Q: bigStr("B")})
 	// generic functions: the instantiation a generic function calls ITSELF at is part of its meaning
 	gen := func(targ string) string {
 		return specialHeader("fmt") + fmt.Sprintf("func kind[T any](depth int) string {\n\tif depth > 0 {\n\t\treturn kind[%s](depth - 1)\n\t}\n\tvar z T\n\treturn fmt.Sprintf(\"%%T\", z)\n}\n\nfunc Special(a int, b int, s string, xs []int) int {\n\treturn len(kind[bool](1))*%d + a\n}\n", targ, k2)
